@@ -258,4 +258,23 @@ theorem rrsetToWire_count {out t origin r o t' n} (h : rrsetToWire out t origin 
     · simp at h
     · simp at h; rw [← h.2.2]; omega
 
+/-! ### `add_opt`: the guard against a padding no option can carry -/
+
+theorem addOpt_core_of_ok {s : RState} {o : EOpt} {pad a b : Nat} {r : RState}
+    (h : stepToExcept (s.addOpt o pad a b) = .ok r) : stepToExcept (s.addOptCore o pad a b) = .ok r := by
+  unfold RState.addOpt at h
+  split at h
+  · simp [stepToExcept] at h
+  · exact h
+
+theorem addOpt_core_of_ok' {s : RState} {o : EOpt} {pad a b : Nat} {r : RState}
+    (h : s.addOpt o pad a b = .ok r) : s.addOptCore o pad a b = .ok r := by
+  unfold RState.addOpt at h
+  split at h
+  · cases h
+  · exact h
+
+theorem addOpt_zero (s : RState) (o : EOpt) (a b : Nat) : s.addOpt o 0 a b = s.addOptCore o 0 a b := by
+  simp [RState.addOpt]
+
 end Model
